@@ -1,3 +1,105 @@
+import QmiModel.Model.Discovery
 import Drv.Common
-/-! stub driver for C18: replaced when the model is built -/
-def main : IO Unit := Drv.main' (fun (s : Unit) _ => (s, "bad-op")) ()
+/-!
+Line-protocol driver for the discovery model (C18).  Strings travel as the hex of their UTF-8 encoding.
+
+  glob <pat> <name>                         → true | false
+  u8 <hex>                                  → ok <cp,cp,…> | exc:UnicodeDecodeError
+  unpack <hex>                              → ok <kind> <field> … | exc:QMI_RuntimeException | exc:ValueError
+  packreq <id> <ts> <wgf> <cnf>             → <hex> | exc:ValueError
+  ctx <name> <workgroup> <pid> <port>       → ok            (new responder state)
+  dg <addr> <data> <rid> <now>              → discarded-bad | exc:<T> | nomatch | sent <addr> <hex> | kill | discarded-type | dead
+  sentcount                                 → number of datagrams sent by the responder so far
+  disc <self> <reqid> <addr>:<hex>,…        → ok <name>@<addr>:<port>;… | exc:UnicodeDecodeError
+-/
+open QmiModel.Discovery
+
+def L := genLayout
+
+def str? (h : String) : Option (List Char) :=
+  match Drv.unhex h with
+  | some bs => utf8Decode bs
+  | none => none
+
+def excName : PyExc → String
+  | .qmiRuntime => "exc:QMI_RuntimeException"
+  | .valueError => "exc:ValueError"
+  | .unicodeDecodeError => "exc:UnicodeDecodeError"
+
+def kindName : Kind → String
+  | .infoReq => "info-request"
+  | .kill => "kill-request"
+  | .infoResp => "info-response"
+
+def parseDgrams (s : String) : Option (List (Nat × Bytes)) :=
+  if s == "-" then some [] else
+  (s.splitOn ",").foldr (fun item acc =>
+    match acc, item.splitOn ":" with
+    | some l, [a, h] =>
+      match a.toNat?, Drv.unhex h with
+      | some addr, some bs => some ((addr, bs) :: l)
+      | _, _ => none
+    | _, _ => none) (some [])
+
+def showPeer (p : Peer) : String :=
+  s!"{Drv.hex (utf8Encode p.name)}@{p.addr}:{p.port}"
+
+def stepLine (s : RState) (line : String) : RState × String :=
+  match line.splitOn " " with
+  | ["glob", p, n] =>
+    match str? p, str? n with
+    | some pat, some name => (s, toString (globMatch pat name))
+    | _, _ => (s, "bad-op")
+  | ["u8", h] =>
+    match Drv.unhex h with
+    | some bs =>
+      match utf8Decode bs with
+      | some cs => (s, "ok " ++ ",".intercalate (cs.map (fun c => toString c.toNat)))
+      | none => (s, "exc:UnicodeDecodeError")
+    | none => (s, "bad-op")
+  | ["unpack", h] =>
+    match Drv.unhex h with
+    | some bs =>
+      match unpack L bs with
+      | .ok p => (s, s!"ok {kindName p.kind} " ++ " ".intercalate (p.fields.map Drv.hex))
+      | .error e => (s, excName e)
+    | none => (s, "bad-op")
+  | ["packreq", id, ts, w, c] =>
+    match id.toNat?, Drv.unhex ts, Drv.unhex w, Drv.unhex c with
+    | some id, some ts, some w, some c =>
+      match packRequest L id ts w c with
+      | some bs => (s, Drv.hex bs)
+      | none => (s, "exc:ValueError")
+    | _, _, _, _ => (s, "bad-op")
+  | ["ctx", n, w, pid, port] =>
+    match str? n, str? w, pid.toInt?, port.toInt? with
+    | some n, some w, some pid, some port =>
+      ({ ctx := { name := n, workgroup := w, pid := pid, port := port }, alive := true, sent := [] }, "ok")
+    | _, _, _, _ => (s, "bad-op")
+  | ["dg", a, h, rid, now] =>
+    match a.toNat?, Drv.unhex h, rid.toNat?, Drv.unhex now with
+    | some a, some bs, some rid, some now =>
+      let d : Dgram := { addr := a, data := bs, rid := rid, now := now }
+      if !s.alive then (s, "dead") else
+      let out := match handleRead L s.ctx d with
+        | .discardedBad => "discarded-bad"
+        | .escaped e => excName e
+        | .noMatch => "nomatch"
+        | .sent a bs => s!"sent {a} {Drv.hex bs}"
+        | .kill => "kill"
+        | .discardedType => "discarded-type"
+      (step L s d, out)
+    | _, _, _, _ => (s, "bad-op")
+  | ["nopkt"] => (s, if s.alive then "no-packet" else "dead")      -- `BlockingIOError` branch of `_handle_read`
+  | ["sentcount"] => (s, toString s.sent.length)
+  | ["disc", self, rid, ds] =>
+    match str? self, rid.toNat?, parseDgrams ds with
+    | some self, some rid, some ds =>
+      match discover L self rid ds with
+      | .ok peers => (s, "ok " ++ ";".intercalate (peers.map showPeer))
+      | .error e => (s, excName e)
+    | _, _, _ => (s, "bad-op")
+  | _ => (s, "bad-op")
+
+def main : IO Unit :=
+  Drv.main' stepLine { ctx := { name := [], workgroup := [], pid := 0, port := 0 }, alive := true, sent := [] }
